@@ -28,26 +28,29 @@ from vlib.common import Violation, HarnessError
 
 ID = "C18"
 MANIFEST = {
-    "technique": "property-based testing of histories (Hypothesis): generated layouts wrapped in VirtualArray at random nodes x generator behaviours x cache behaviours x operation sequences against the eager twin; generated partitionings x positional operations against the concatenated value",
-    "level_text": "Generated-input exploration at the C++ level (libawkward through the /verif bridge). Virtual part: a type-directed generator draws a layout; 1..3 nodes (root, inner, nested) are wrapped in VirtualArray whose ArrayGenerator/ArrayCache call back into Python; generator behaviours correct / raises on drawn calls / shorter or longer than the declared length / other than the declared form; cache behaviours none / keep / never stores / evicts on a drawn schedule / weak reference lost; 1..8 catalogue operations (also on lazy results of earlier steps) must give the eager twin's value and success/error class; with length and form declared len/type/form/range/field slicing must not invoke the generator; a declaration mismatch must raise whenever the generator ran; after a failed or evicted generation the next read must be right; cache entries must hold the true value of their own key. Partition part: every split of a value into 1..4 partitions with independent encodings; getitem_at, getitem_range (any step), tojson, len, partitionid_index_at, start/stop/stops and repartition must agree with the concatenated value. Held on everything generated outside the recorded known findings.",
-    "level_note": "Trusted: the /verif bridge and akshim.virtual (a re-statement of PyArrayGenerator/PyArrayCache and of the pybind11 binding, which cannot be compiled here), akmodel.decode as the reader of results. Not decided: thread interleavings, the Python level (ak.virtual, partition.py, ak.repartition), src/python/virtual.cpp itself, ptr_lib='cuda'.",
+    "technique": "property-based testing of histories (Hypothesis): generated layouts wrapped in VirtualArray at random nodes x generator behaviours x cache behaviours x operation sequences against the eager twin; generated partitionings x positional operations / repartitionings against the concatenated value; the same at the Python level (ak.virtual, ak.partitioned, ak.repartition) on the awkward._ext emulation",
+    "level_text": "Generated-input exploration at the C++ level (libawkward through the /verif bridge) and at the Python level (unmodified src/awkward on the awkward._ext emulation). Virtual part: a type-directed generator draws a layout; 1..3 nodes (root, inner, nested) are wrapped in VirtualArray whose ArrayGenerator/ArrayCache call back into Python; generator behaviours correct / raises on drawn calls / shorter or longer than the declared length / other than the declared form; cache behaviours none / keep / never stores / evicts on a drawn schedule / weak reference lost; 1..8 (thorough: 1..16) catalogue operations (also on lazy results of earlier steps) must give the eager twin's value and success/error class; with length and form declared len/type/form/range/field slicing must not invoke the generator; a declaration mismatch must raise whenever the generator ran and a rejected array must never be readable afterwards; after a failed or evicted generation the next read must be right; cache entries must hold the true value of their own key. Partition part: every split of a value into 1..4 partitions (empty ones included) with independent encodings; getitem_at, getitem_range (any step), tojson, len, partitionid_index_at, start/stop/stops and repartition (incl. trailing empty partitions) must agree with the concatenated value. Python level: ak.virtual(generate, form, length, cache, cache_key) at the root or as a field of a RecordArray x the same generator behaviours x cache 'new' / None / a mapping that never keeps / evicts on a drawn schedule, and ak.partitioned([...]) of 1..4 pieces, under len, ak.type, to_list, a[i], a[slice], a[int array], a[mask], a[field], ak.num, ak.flatten, ak.sum, a+1, ak.is_none, ak.materialized, ak.to_json, ak.fields, ak.partitions, ak.repartition(int / list / None), compared with the eager concatenated ak.Array under the same call. Held on everything generated outside the recorded known finding.",
+    "level_note": "Trusted: the /verif bridge, akshim.virtual and the rest of the awkward._ext emulation (a re-statement of PyArrayGenerator/PyArrayCache and of the pybind11 binding, which cannot be compiled here: src/python/virtual.cpp and partition.cpp themselves are not executed), akmodel.decode as the reader of results. Not decided: thread interleavings (every history is a single-threaded schedule owned by the harness: concurrent generation/eviction is out of reach), ptr_lib='cuda', a cache whose weak reference dies at the Python level (ak.Array keeps its caches alive; exercised at the C++ level only). At the Python level operations that reduce or restructure below the top level are compared on canonically encoded pieces only, reducers at axis=None only, and the order in which ak.flatten(axis=None) lists record fields is not compared (unspecified); steps that need the ArrayBuilder emulation are skipped and counted.",
 }
 RULE = ("case = whole history. virtual: description + wrappers (path, declared form/length, generator behaviour) + cache behaviour + 1..8 steps; "
         "non-trivial = some wrapper's generator ran at least twice (a re-generation after an eviction, a cache that does not keep, or a failed generation) "
         "and at least one step compared equal to the eager twin, or a declaration mismatch was detected. "
         "partition: 1..4 encoded partitions + 1..8 operations; non-trivial = a range or repartition crossing a partition boundary, or an element read from a partition other than the first. "
+        "pvirtual / ppartition (Python level): same rules; ppartition is non-trivial when at least two pieces are non-empty and a data operation compared equal. "
         "distinct by hash of the case")
 ASSUMPTIONS = ["generators are pure: every invocation builds the same description again",
                "steps whose eager twin lies in the region of a known finding of another property (checks/known.py) are skipped and counted",
                "a step's outcome is that of the operation followed by a full read of its result (lazy results defer errors to the read)",
-               "the step-level metadata claim (no generator call) is asserted for len, type, .form, getitem_range, getitem_field(s) only"]
+               "the step-level metadata claim (no generator call) is asserted for len, type, .form, getitem_range, getitem_field(s) only (Python level: len, ak.type, a[start:stop], a[field])",
+               "when both twins refuse an operation the exception classes are not compared"]
 PLAN = {
-    "quick": [{"flavour": "plain", "cases": 6000}, {"flavour": "san", "cases": 1500}],
-    "thorough": [{"flavour": "plain", "cases": 100000}, {"flavour": "san", "cases": 40000}],
+    "quick": [{"flavour": "plain", "cases": 6400}, {"flavour": "san", "cases": 1600}],
+    "thorough": [{"flavour": "plain", "cases": 60000}, {"flavour": "san", "cases": 15000}],
 }
 WALL_CAP = {"quick": 900, "thorough": 3300}
 FORK_EACH = True
 
+SIZE = {"steps": 8}      # longest history (quick); strategy("thorough") raises it
 CFG = gen.Cfg(max_depth=3, leaf_dtypes=("int64", "float64", "bool", "int32", "uint8"), zero_field_records=False, nan=False)
 PCFG = gen.Cfg(max_depth=2, leaf_dtypes=("int64", "float64", "bool"), zero_field_records=False, nan=False, max_len=8)
 
@@ -196,7 +199,7 @@ def virtual_cases(draw):
             cache["break_at"] = draw(st.integers(0, 3))
     sources = [(-1, T, vals, True)]
     steps = []
-    for j in range(draw(st.integers(1, 8))):
+    for j in range(draw(st.integers(1, SIZE["steps"]))):
         step = draw(draw_step(sources))
         steps.append(step)
         if step["spec"]["op"] in CHAIN_OPS:
@@ -223,11 +226,16 @@ def partition_cases(draw):
     pieces = []
     a = 0
     for b in stops:
-        pieces.append(draw(gen.encode(T, vals[a:b], PCFG)))
+        d = draw(gen.encode(T, vals[a:b], PCFG))
+        if draw(st.integers(0, 4)) == 0:
+            # a lazy partition (the shape ak.from_buffers / ak.from_parquet make with lazy=True): akshim.describe.default_virtual_builder
+            d = {"class": "VirtualArray", "generates": d, "declare_form": draw(st.booleans()), "declare_length": draw(st.booleans()),
+                 "cache": draw(st.sampled_from([None, "keep", "none_mapping"]))}
+        pieces.append(d)
         a = b
     pops = []
     cur = n
-    for _ in range(draw(st.integers(1, 8))):
+    for _ in range(draw(st.integers(1, SIZE["steps"]))):
         k = draw(st.sampled_from(["getitem_at", "getitem_at", "getitem_range", "getitem_range", "getitem_range", "tojson", "len", "pidx", "pidx",
                                   "structure", "repartition", "repartition", "narrow"]))
         b = st.one_of(st.none(), st.integers(-cur - 2, cur + 2))
@@ -252,11 +260,15 @@ def partition_cases(draw):
 
 
 def strategy(tier):
-    return st.one_of(virtual_cases(), virtual_cases(), virtual_cases(), partition_cases())
+    from checks import c18p
+    SIZE["steps"] = 8 if tier == "quick" else 16
+    return st.one_of(virtual_cases(), virtual_cases(), virtual_cases(), virtual_cases(), partition_cases(), partition_cases(),
+                     c18p.pvirtual_cases(), c18p.ppartition_cases())
 
 
 def setup(flavour, tier):
-    pass
+    from checks import pcommon
+    pcommon.ak()      # the Python layer is imported once per worker, before cases are forked
 
 
 # ------------------------------------------------------------------------------------------------ known findings
@@ -266,10 +278,52 @@ def _first_gen(case):
 
 def known_length_longer(case, vio):
     """ArrayGenerator::generate_and_check accepts a generated array longer than the declared length"""
-    return _first_gen(case) == "long" and vio.get("bucket", "").startswith("unenforced:long|")
+    # ... and operations on such an array work with two different lengths (the declared one for len(), the real one for the data):
+    # kernels sized by one and indexed by the other die under the sanitizer (crash bucket of a history whose first generator is "long")
+    b = vio.get("bucket", "")
+    return _first_gen(case) == "long" and (b.startswith("unenforced:long|") or (b.startswith("crash:virtual|") and b.endswith("|long")))
 
 
-KNOWN = {"virtual_generated_longer_than_declared": known_length_longer}
+NOT_CONFORM = "generated array does not conform to expected form"
+
+
+def _observed_text(vio):
+    obs = vio.get("observed")
+    return obs[1] if isinstance(obs, list) and len(obs) > 1 and isinstance(obs[1], str) else ""
+
+
+def known_bitmasked_range_form(case, vio):
+    """Form::getitem_range() is the identity for every form but BitMaskedForm, yet RegularArray / RecordArray / ByteMaskedArray / UnmaskedArray
+    slice their contents: a BitMaskedArray below them becomes a ByteMaskedArray, which the predicted form of the lazy slice does not say"""
+    text = _observed_text(vio)
+    if not (vio.get("bucket", "").startswith("errorclass:") and NOT_CONFORM in text):
+        return False
+    expected, _, generated = text.partition("but generated:")
+    if case.get("part") in ("virtual", "pvirtual"):
+        descs = [case["desc"]]
+    elif case.get("part") == "partition":
+        descs = [D.strip_virtual(d) for d in case["pieces"] if d["class"] == "VirtualArray"]
+    else:
+        return False
+    return ('"BitMaskedArray"' in expected and '"ByteMaskedArray"' in generated
+            and any(K.any_node(d, lambda n: n["class"] == "BitMaskedArray") for d in descs))
+
+
+def known_nested_virtual_slice_form(case, vio):
+    """a VirtualArray with a declared (or, after a first generation, inferred) form whose generated array contains further VirtualArray nodes passes generate_and_check (compatibility
+    check) but the form predicted for its lazy field / range slice assumes the nodes are not virtual (option/indexed simplification)"""
+    text = _observed_text(vio)
+    if not (case.get("part") == "virtual" and vio.get("bucket", "").startswith("errorclass:") and NOT_CONFORM in text):
+        return False
+    _, _, generated = text.partition("but generated:")
+    paths = [tuple(w["path"]) for w in case["wraps"]]
+    nested = any(any(len(q) > len(w["path"]) and q[:len(w["path"])] == tuple(w["path"]) for q in paths) for w in case["wraps"])
+    return '"VirtualArray"' in generated and nested
+
+
+KNOWN = {"virtual_generated_longer_than_declared": known_length_longer,
+         "virtual_range_form_bitmasked": known_bitmasked_range_form,
+         "virtual_slice_form_nested_virtual": known_nested_virtual_slice_form}
 
 
 def pre_exclude(case):
@@ -277,6 +331,10 @@ def pre_exclude(case):
 
 
 def case_label(case):
+    if case["part"] == "pvirtual":
+        return "pvirtual|%s|%s|%s" % (case["where"], case["cache"]["kind"], case["gen"]["kind"])
+    if case["part"] == "ppartition":
+        return "ppartition|" + ",".join(sorted(set(s_["spec"]["op"] for s_ in case["steps"])))
     if case["part"] == "partition":
         return "partition|" + ",".join(sorted(set(o["op"] for o in case["ops"])))
     w = case["wraps"][0]
@@ -482,7 +540,8 @@ def _run_virtual(case, run):
         except GeneratorFailure:
             V.clear_pending()
         except ValueError:
-            if gk in BAD_GENERATORS and run.calls[0] > 0:
+            if gk in BAD_GENERATORS and sum(run.calls) > 0:
+                # the contradicting generator ran, or an enclosing wrapper's generator ran and its check met the contradicting declaration
                 return {"tags": ["part:virtual", "gen:" + gk, "mismatch_detected_at_construction"], "nontrivial": False}
             if gk == "long" and w0["path"] and run.calls[0] == 0:
                 # the declared length is shorter than the node it replaces: the enclosing node's constructor (which only sees
@@ -584,6 +643,11 @@ def _run_virtual(case, run):
             # NumpyArray::getitem(Slice), a runtime_error, where the eager getitem_field raises invalid_argument)
             tags.append("error_class_differs")
             continue
+        if ek == "ValueError" and vk == "ok" and op in ("sort", "argsort") and "array with strings can only be sorted with axis=-1" in (emsg or ""):
+            # the eager array refuses (there is no value to compare with); the refusal is decided by purelist_parameter("__array__") of an outer
+            # node, which a VirtualArray below it answers from its (declared, inferred, sliced or unknown) form without materialising
+            tags.append("string_sort_refusal_not_compared")
+            continue
         if vk != ek:
             raise Violation("errorclass:" + bucket_tail, "%s: eager twin gives %s, virtual twin gives %s" % (op, ek, vk),
                             expected=[ek, emsg if ek != "ok" else M.jsonable(ev)], observed=[vk, vmsg if vk != "ok" else (None if vv is SKIP else M.jsonable(vv))])
@@ -607,6 +671,19 @@ def _run_virtual(case, run):
             lazy_src[j] = bool(lazy_src.get(src)) and op != "carry"
             if isinstance(vres, V.VirtualArray):
                 tags.append("lazy_result")
+    # ---- (3b) whatever happened before (evictions, failed generations, a lost cache), a final complete read is still the true value
+    if gk not in BAD_GENERATORS and not (ckind == "broken" and run.broken):
+        for _ in range(len(w0["gen"].get("fail_calls", ())) + 2):
+            fk, fmsg, fv, _res = attempt(lambda: virt_root, {"op": "final_read"})
+            V.clear_pending()
+            if fk != "GeneratorFailure":
+                break
+        if fk != "ok":
+            raise Violation("final_read:%s|%s" % (fk, label), "the final complete read of the virtual array fails: %s" % fmsg, expected="ok", observed=[fk, fmsg])
+        truth = M.decode(desc)[1]
+        if not M.same_value(fv, truth):
+            raise Violation("value:final_read|" + label, "the final complete read of the virtual array differs from the eager array", expected=M.jsonable(truth), observed=M.jsonable(fv))
+        tags.append("final_read_ok")
     # ---- (4) nothing stale or partial is left visible in the cache
     if run.mapping is not None:
         run.quiet = True
@@ -688,9 +765,19 @@ def check_partitioned(p, expected, what):
 
 
 def run_partition(case):
-    pieces = case["pieces"]
-    if any(K.has_nd_zero(d) for d in pieces):
-        return {"discarded": "known finding numpy_nd_zero_inner_dim (NumpyArray with a zero-length inner dimension) in a partition"}
+    try:
+        return _run_partition(case)
+    except ValueError as e:
+        if NOT_CONFORM in str(e) and any(d["class"] == "VirtualArray" for d in case["pieces"]):
+            # reading a lazy partition (or a lazy slice of one) fails although its generator is correct
+            raise Violation("errorclass:partition|lazy_read", "a read of a partitioned array with lazy partitions fails where the concatenated array answers",
+                            expected="ok", observed=["ValueError", str(e)])
+        raise
+
+
+def _run_partition(case):
+    real_pieces = case["pieces"]
+    pieces = [D.strip_virtual(d) for d in real_pieces]       # what the model reads
     T = M.decode(pieces[0])[0]
     vals = []
     for d in pieces:
@@ -698,9 +785,10 @@ def run_partition(case):
     stops = []
     for d in pieces:
         stops.append((stops[-1] if stops else 0) + M.length_of(d))
-    p = V.IrregularlyPartitionedArray([D.build(d) for d in pieces])
+    p = V.IrregularlyPartitionedArray([D.build(d) for d in real_pieces])
     whole = D.build(gen.canonical(T, vals))      # the concatenated array, built from the model's concatenation
     tags = ["part:partition", "partitions:%d" % len(pieces)] + (["empty_partition"] if any(M.length_of(d) == 0 for d in pieces) else [])
+    tags += ["virtual_partition"] if any(d["class"] == "VirtualArray" for d in real_pieces) else []
     nontrivial = False
     check_partitioned(p, vals, "construction")
     if p.stops != stops:
@@ -797,4 +885,10 @@ def run_case(case):
         return run_virtual(case)
     if case["part"] == "partition":
         return run_partition(case)
+    if case["part"] == "pvirtual":
+        from checks import c18p
+        return c18p.run_pvirtual(case)
+    if case["part"] == "ppartition":
+        from checks import c18p
+        return c18p.run_ppartition(case)
     raise HarnessError("unknown part")
